@@ -1667,10 +1667,22 @@ XPathProcessorImpl::Argument()
 {
     assert(m_expression != 0);
 
-    if (m_requireLiterals == false ||
-        isCurrentLiteral() == true)
+    if (m_requireLiterals == false)
     {
         Expr();
+    }
+    else if (isCurrentLiteral() == true)
+    {
+        // IdKeyPattern ::= 'id' '(' Literal ')' | 'key' '(' Literal ',' Literal ')':
+        // the argument is the literal itself, not an expression that starts
+        // with one ("id('a' = 'b')", "id('a' | b)", "id('a'[1])").
+        PrimaryExpr();
+
+        if (tokenIs(XalanUnicode::charComma) == false &&
+            tokenIs(XalanUnicode::charRightParenthesis) == false)
+        {
+            error(XalanMessages::LiteralArgumentIsRequired);
+        }
     }
     else
     {
@@ -2852,11 +2864,28 @@ XPathProcessorImpl::LocationPathPattern()
     // RelativePathPattern.
     bool    fStepRequired = false;
 
+    // Set when an id()/key() call or a leading '/' was compiled: only then
+    // may the alternative end here.
+    bool    fHead = false;
+
     if(lookahead(XalanUnicode::charLeftParenthesis, 1) == true &&
                 (tokenIs(s_functionIDString) == true ||
                  tokenIs(s_functionKeyString) == true))
     {
         IdKeyPattern();
+
+        fHead = true;
+
+        if (m_token.empty() == false &&
+            tokenIs(XalanUnicode::charSolidus) == false &&
+            tokenIs(XalanUnicode::charVerticalLine) == false)
+        {
+            // A step must be separated from the call by '/' or '//':
+            // "id('x')a" is not a pattern.
+            error(
+                XalanMessages::UnexpectedTokenFound_1Param,
+                m_token);
+        }
 
         if(tokenIs(XalanUnicode::charSolidus) == true && lookahead(XalanUnicode::charSolidus, 1) == true)
         {
@@ -2876,6 +2905,8 @@ XPathProcessorImpl::LocationPathPattern()
     else if(tokenIs(XalanUnicode::charSolidus) == true)
     {
         const int   newOpPos = m_expression->opCodeMapLength();
+
+        fHead = true;
 
         // Tell how long the step is without the predicate
         const XPathExpression::OpCodeMapValueVectorType     theArgs(1, 4, m_constructionContext->getMemoryManager());
@@ -2905,26 +2936,25 @@ XPathProcessorImpl::LocationPathPattern()
         nextToken();
     }
 
-    if (fStepRequired == true &&
-        (m_token.empty() == true || tokenIs(XalanUnicode::charVerticalLine) == true))
+    if (m_token.empty() == false &&
+        tokenIs(XalanUnicode::charVerticalLine) == false)
     {
-        // '//' alone (also written '/ /'), or as an alternative of a
-        // union, is not a pattern: there is no step to match.
-        error(XalanMessages::ExpectedNodeTest);
-    }
+        if (fStepRequired == true &&
+            tokenIs(XalanUnicode::charSolidus) == true)
+        {
+            // "///a": the step itself would swallow a third '/'.
+            error(XalanMessages::ExpectedNodeTest);
+        }
 
-    if(m_token.empty() == false)
+        RelativePathPattern();
+    }
+    else if (fStepRequired == true || fHead == false)
     {
-        if (!tokenIs(XalanUnicode::charVerticalLine) == true)
-        {
-            RelativePathPattern();
-        }
-        else if (lookahead(XalanUnicode::charVerticalLine, -1) == true)
-        {
-            error(
-                XalanMessages::UnexpectedTokenFound_1Param,
-                m_token);
-        }
+        // '//' alone (also written '/ /'), or as an alternative of a union,
+        // is not a pattern: there is no step to match.  Neither is an empty
+        // alternative ("|a", "a|", "a||b"): nothing would be compiled for
+        // it, and the matcher would run off the end of the alternative.
+        error(XalanMessages::ExpectedNodeTest);
     }
 
     // Terminate for safety.
@@ -2939,11 +2969,33 @@ XPathProcessorImpl::LocationPathPattern()
 void
 XPathProcessorImpl::IdKeyPattern()
 {
+    assert(m_expression != 0);
+
+    const int   opPos = m_expression->opCodeMapLength();
+
+    const bool  fKey = tokenIs(s_functionKeyString);
+
     m_requireLiterals = true;
 
     FunctionCall();
 
     m_requireLiterals = false;
+
+    // eOP_FUNCTION, length, function id, argument count...
+    const int   argCount = m_expression->getOpCodeMapValue(opPos + 3);
+
+    if (fKey == true && argCount != 2)
+    {
+        error(
+            XalanMessages::FunctionTakesTwoArguments_1Param,
+            s_functionKeyString);
+    }
+    else if (fKey == false && argCount != 1)
+    {
+        error(
+            XalanMessages::FunctionAcceptsOneArgument_1Param,
+            s_functionIDString);
+    }
 }
 
 
